@@ -31,7 +31,13 @@ import (
 )
 
 const (
-	hangAfter   = 20 * time.Second
+	// A case is a hang candidate when the decoding has used more than cpuBudget of PROCESS CPU TIME (the child decodes one
+	// case at a time, so this is the decode's own CPU time; wall time says nothing on a loaded machine).  A candidate is
+	// then re-run ALONE in a fresh child with confirmFactor times the budget; only a confirmed overrun is reported as
+	// `hang`.  wallCap only catches code that blocks without using the CPU.
+	cpuBudget     = 10 * time.Second
+	confirmFactor = 20
+	wallCap       = 30 * time.Minute
 	addrLimit   = 6 << 30 // child address space limit
 	propFactor  = 128     // allocation counted as "in proportion": ≤ propFactor·|payload| + propConst
 	propConst   = 8 << 20
@@ -46,6 +52,12 @@ func ctxStr(e pk.Entry) string {
 // child: decodes one body per input line
 
 func child() {
+	budget := time.Duration(cpuBudget)
+	if len(os.Args) > 2 {
+		if f, err := strconv.Atoi(os.Args[2]); err == nil && f > 0 {
+			budget *= time.Duration(f)
+		}
+	}
 	_ = syscall.Setrlimit(syscall.RLIMIT_AS, &syscall.Rlimit{Cur: addrLimit, Max: addrLimit})
 	debug.SetGCPercent(400)
 	entries := pk.Enumerate()
@@ -63,25 +75,12 @@ func child() {
 		idx, _ := strconv.Atoi(f[0])
 		data := hx.UnHex(f[1])
 		e := entries[idx]
-		ch := make(chan string, 1)
-		go func() {
-			defer func() {
-				if r := recover(); r != nil {
-					ch <- "panic"
-				}
-			}()
-			ch <- decodeOne(e, data)
-		}()
-		var res string
-		select {
-		case res = <-ch:
-		case <-time.After(hangAfter):
-			fmt.Fprintln(out, "hang")
-			out.Flush()
-			os.Exit(3)
-		}
+		res := pk.GuardCPU(budget, wallCap, func() string { return decodeOne(e, data) })
 		fmt.Fprintln(out, res)
 		out.Flush()
+		if res == "hang" {
+			os.Exit(3) // the decoding goroutine cannot be stopped: the parent starts a fresh child
+		}
 	}
 }
 
@@ -149,8 +148,8 @@ type proc struct {
 	out *bufio.Reader
 }
 
-func startChild() *proc {
-	cmd := exec.Command(os.Args[0], "--child")
+func startChild(budgetFactor int) *proc {
+	cmd := exec.Command(os.Args[0], "--child", strconv.Itoa(budgetFactor))
 	cmd.Env = append(os.Environ(), "GOMEMLIMIT=4GiB")
 	stdin, _ := cmd.StdinPipe()
 	stdout, _ := cmd.StdoutPipe()
@@ -182,11 +181,9 @@ func main() {
 	entries := pk.Enumerate()
 	cases := buildCases(run, entries)
 
-	p := startChild()
-	crashes, hangs := 0, 0
-	classCount := map[string]int{}
-	for _, c := range cases {
-		e := entries[c.idx]
+	// ask sends one case to a child and waits for its answer; the child's own watchdog (CPU time) decides about hangs,
+	// the wall-clock wait here only covers a child that is itself stuck.
+	ask := func(p *proc, c tcase) string {
 		fmt.Fprintf(p.in, "%d %s\n", c.idx, hx.Hex(c.data))
 		p.in.Flush()
 		type rd struct {
@@ -195,15 +192,43 @@ func main() {
 		}
 		ch := make(chan rd, 1)
 		go func() { s, err := p.out.ReadString('\n'); ch <- rd{s, err} }()
-		var res string
 		select {
 		case r := <-ch:
-			res = strings.TrimSpace(r.s)
+			res := strings.TrimSpace(r.s)
 			if r.err != nil || res == "" {
-				res = "crash"
+				return "crash"
 			}
-		case <-time.After(hangAfter + 10*time.Second):
-			res = "hang"
+			return res
+		case <-time.After(wallCap + time.Minute):
+			return "hang"
+		}
+	}
+	p := startChild(1)
+	crashes, hangs, hangCandidates := 0, 0, 0
+	confirmedHang := map[string]bool{}
+	classCount := map[string]int{}
+	for _, c := range cases {
+		e := entries[c.idx]
+		res := ask(p, c)
+		if res == "hang" && !confirmedHang[e.Name] {
+			// candidate only: confirm it ALONE in a fresh child with confirmFactor times the CPU budget
+			// (once a type has a confirmed hang, further overruns of that type are not re-confirmed: 200 s each)
+			hangCandidates++
+			p.kill()
+			q := startChild(confirmFactor)
+			res = ask(q, c)
+			q.kill()
+			p = startChild(1)
+			if res == "hang" {
+				confirmedHang[e.Name] = true
+			}
+		} else if res == "crash" {
+			// a dead child can also be the machine's doing (memory pressure): it must die again, alone
+			p.kill()
+			q := startChild(1)
+			res = ask(q, c)
+			q.kill()
+			p = startChild(1)
 		}
 		if res == "crash" || res == "hang" {
 			if res == "crash" {
@@ -212,7 +237,7 @@ func main() {
 				hangs++
 			}
 			p.kill()
-			p = startChild()
+			p = startChild(1)
 		}
 		op := "dec"
 		if c.nomod {
@@ -227,6 +252,7 @@ func main() {
 	run.Extra["cases_by_payload_class"] = classCount
 	run.Extra["child_crashes"] = crashes
 	run.Extra["child_hangs"] = hangs
+	run.Extra["hang_candidates"] = hangCandidates
 	run.Finish()
 }
 
